@@ -517,10 +517,7 @@ def edges_of(isa, arch, texts, flags):
     mm, sem = _MODELS[arch]
     parser, kernel = dgfam.parsed_kernel(isa, texts)
     sem.add_semantics(kernel)
-    g = drive.KernelDG.__new__(drive.KernelDG)
-    g.timed_out = False
-    g.kernel, g.parser, g.model, g.arch_sem = kernel, parser, mm, sem
-    g.dg = g.create_DG(kernel, flags)
+    g = drive.graph_only(kernel, parser, mm, sem, flags)
     idx = {k.line_number: i for i, k in enumerate(kernel)}
     got = set()
     for a, b in g.dg.edges():
